@@ -99,6 +99,23 @@ static void run_case(CaseCtx& c)
             res.push_back(r);
             names.push_back("take");
         }
+        // in-place use: the result vector may be the right-hand-side vector itself (r = f - A u written over f); both
+        // strategies read what they need before they overwrite it
+        {
+            Level& L = *H[3].levels[d];
+            ResidualGive rg(L.grid(), L.levelCache(), *po.geo, *po.prof, dirbc, threads);
+            ResidualTake rt(L.grid(), L.levelCache(), *po.geo, *po.prof, dirbc, threads);
+            Vector<double> vg = f, vt = f;
+            rg.computeResidual(vg, vg, u);
+            rt.computeResidual(vt, vt, u);
+            bool same_g = true, same_t = true;
+            for (int k = 0; k < n; k++) {
+                same_g = same_g && std::memcmp(&vg[k], &res[3][k], sizeof(double)) == 0;
+                same_t = same_t && std::memcmp(&vt[k], &res[4][k], sizeof(double)) == 0;
+            }
+            c.obs.require("in_place_equals_out_of_place", same_g, "give/" + lvl);
+            c.obs.require("in_place_equals_out_of_place", same_t, "take/" + lvl);
+        }
         // the operator a Level owns (what the solver uses): initialised for the other boundary mode first, then for this one --
         // the second initialisation must win; result compared bit for bit with the directly constructed operator
         {
